@@ -80,6 +80,25 @@ def check(run):
                 cases.append("seq\t%s\t%s\t%s" % (q.name, cmd.hex(), (sc.ACK + good + part).hex()))
                 expect.append(sc.expected_trace(cmd, sc.ACK, replies, ("trunc", part), b""))
                 meta.append((q.short, t, "end of stream" if cut == 0 else "truncated packet"))
+            # a LONG reply (extended length form) cut inside / right behind its 5-byte header: 256 has a zero low length byte
+            if not t or rng.random() < 0.1:
+                from .c01 import hit_body_length
+                done = 0
+                for k2 in rng.sample(range(nv), nv):
+                    st = q.variants[k2][1]
+                    for target in (256, 300):
+                        r = hit_body_length(rng, st, target)
+                        if r is None:
+                            continue
+                        fr2 = r[1]
+                        for cut in (3, 4, 5, 6, len(fr2) - 1):
+                            part = fr2[:cut]
+                            cases.append("seq\t%s\t%s\t%s" % (q.name, cmd.hex(), (sc.ACK + good + part).hex()))
+                            expect.append(sc.expected_trace(cmd, sc.ACK, replies, ("trunc", part), b""))
+                            meta.append((q.short, t, "truncated long packet (extended length header)"))
+                        done += 1
+                    if done:
+                        break
             if single:
                 break
     try:
